@@ -47,14 +47,16 @@ Theorem C07_process_quota_before_first_insertion :
 Proof. exact process_quota_first. Qed.
 
 (* -- "the solver still returns normally with a solution": EvolutionSimulator::run + Iterative::run + Solver::solve, for EVERY
-      quota oracle, under a positive generation limit (a configured time limit must not have expired before the first initial
-      solution): Ok(best), best has every job in exactly one home and nothing pending, and so has every individual of the population;
+      quota oracle, under a positive generation limit COMBINED WITH ANY of the other criteria the builder accepts (max-time,
+      min-cv sample / period, target proximity: oracles; none of them may already be true at the very first check, i.e. before the
+      first initial solution): Ok(best), best has every job in exactly one home and nothing pending, and so has every individual of the population;
       at most N + 1 generations; no generation starts once the quota has fired (k-th poll): at most k - 1 generations *)
 Theorem C07_evolve_returns_valid :
   forall (cfg : econfig) (W : oracles) (q : quota) (N k : nat),
     oracles_ok W ->
     c_max_gen cfg = Some N -> 1 <= N -> 1 <= c_init_ops cfg -> 1 <= c_init_size cfg ->
-    (c_max_time cfg = true -> o_time W 0 = false /\ o_init_quota W 0 = false) ->
+    (forall t, t < 3 -> o_time W t = false /\ forall i, o_other W i t = false) ->
+    (c_max_time cfg = true -> o_init_quota W 0 = false) ->
     exists best st, evolve cfg W q = EOk best st
                     /\ (Inv (c_jobs cfg) best /\ h_required best = [])
                     /\ In best (s_pop st)
@@ -63,8 +65,8 @@ Theorem C07_evolve_returns_valid :
                     /\ (fires_by q k -> gens_run (s_tele st) <= pred k)
                     /\ length (t_evolution (s_tele st)) = gens_run (s_tele st).
 Proof.
-  intros cfg W q N k HW Hc HN Hops Hsize Ht.
-  exact (evolve_returns cfg W q HW N k Hc Hops Hsize (first_check_positive_limit cfg W N Hc HN Ht)).
+  intros cfg W q N k HW Hc HN Hops Hsize Hquiet Hiq.
+  exact (evolve_returns cfg W q HW N k Hc Hops Hsize (first_check_positive_limit cfg W N Hc HN Hquiet Hiq)).
 Qed.
 
 (* the harness' CountingQuota(k) is such a quota *)
@@ -83,19 +85,19 @@ Proof. exact evolve_zero_generations. Qed.
 
 (* -- clause "It never runs more generations than the configured maximum":
       FULL statement  generations_run <= N  is REFUTED on the faithful model: with nothing else stopping the run (quota never
-      fires, no time limit hit) exactly N + 1 generations are run for every N >= 1 (statistics.generation is the 0-based index
+      fires, no time limit hit, no other configured criterion fires) exactly N + 1 generations are run for every N >= 1 (statistics.generation is the 0-based index
       of the generation just finished and MaxGeneration tests `generation >= limit`); metrics.generations reports N *)
 Theorem C07_generations_run_exact :
   forall (cfg : econfig) (W : oracles) (q : quota) (N : nat),
     oracles_ok W ->
     c_max_gen cfg = Some N -> 1 <= N -> 1 <= c_init_ops cfg -> 1 <= c_init_size cfg ->
     (c_max_time cfg = true -> o_init_quota W 0 = false) ->
-    (forall n, q n = false) -> (forall t, o_time W t = false) ->
+    (forall n, q n = false) -> (forall t, o_time W t = false) -> (forall i t, o_other W i t = false) ->
     exists best st, evolve cfg W q = EOk best st /\ gens_run (s_tele st) = N + 1 /\ t_metric_gens (s_tele st) = N.
 Proof.
-  intros cfg W q N HW Hc HN Hops Hsize Ht Hq Htm.
-  destruct (evolve_generations_exact cfg W q HW N Hc HN Hops Hsize) as (best & st & E & Hg & Hm); [|exact Hq|exact Htm|].
-  - apply (first_check_positive_limit cfg W N Hc HN). intros H. split; [apply Htm|apply Ht; exact H].
+  intros cfg W q N HW Hc HN Hops Hsize Ht Hq Htm Hot.
+  destruct (evolve_generations_exact cfg W q HW N Hc HN Hops Hsize) as (best & st & E & Hg & Hm); [|exact Hq|exact Htm|exact Hot|].
+  - apply (first_check_positive_limit cfg W N Hc HN); [|exact Ht]. intros t _. split; [apply Htm|intros i; apply Hot].
   - exists best, st. split; [exact E|]. split; [lia|exact Hm].
 Qed.
 
@@ -103,22 +105,37 @@ Theorem C07_generations_bounded_refuted :
   exists (cfg : econfig) (W : oracles) (q : quota) (N : nat) (best : hsol) (st : estate),
     c_max_gen cfg = Some N /\ 1 <= N /\ evolve cfg W q = EOk best st /\ N < gens_run (s_tele st).
 Proof.
-  exists (mkC [0%Z; 1%Z] 1 (Some 1) false 4 4 0), (skip_oracles 0 []), (counting_quota None), 1.
+  exists (mkC [0%Z; 1%Z] 1 (Some 1) false None false 4 4 0), (skip_oracles 0 []), (counting_quota None), 1.
   eexists _, _. split; [reflexivity|]. split; [lia|]. split; [vm_compute; reflexivity|]. vm_compute. lia.
 Qed.
 
-(* the strongest true bound: never more than N + 1 generations, for every quota / clock / operator oracle *)
+(* the strongest true bound: never more than N + 1 generations, for every quota / clock / operator oracle and for every
+   combination of max_generations = N with max-time, min-cv (sample or period, any size) and target proximity *)
 Theorem C07_generations_bounded_partial :
   forall (cfg : econfig) (W : oracles) (q : quota) (N : nat),
     oracles_ok W ->
     c_max_gen cfg = Some N -> 1 <= N -> 1 <= c_init_ops cfg -> 1 <= c_init_size cfg ->
-    (c_max_time cfg = true -> o_time W 0 = false /\ o_init_quota W 0 = false) ->
+    (forall t, t < 3 -> o_time W t = false /\ forall i, o_other W i t = false) ->
+    (c_max_time cfg = true -> o_init_quota W 0 = false) ->
     exists best st, evolve cfg W q = EOk best st /\ gens_run (s_tele st) <= N + 1.
 Proof.
-  intros cfg W q N HW Hc HN Hops Hsize Ht.
-  destruct (C07_evolve_returns_valid cfg W q N 0 HW Hc HN Hops Hsize Ht) as (best & st & E & _ & _ & _ & Hg & _).
+  intros cfg W q N HW Hc HN Hops Hsize Hquiet Hiq.
+  destruct (C07_evolve_returns_valid cfg W q N 0 HW Hc HN Hops Hsize Hquiet Hiq) as (best & st & E & _ & _ & _ & Hg & _).
   exists best, st. split; [exact E|lia].
 Qed.
+
+(* the limit handed to MaxGeneration is the configured max_generations whatever else is configured (get_termination), and the
+   composite (CompositeTermination = any) is terminated as soon as that limit is reached wherever the criterion stands in the
+   list: additional criteria can only stop the run earlier *)
+Theorem C07_generation_limit_is_the_configured_maximum :
+  forall (N : nat) (max_time : bool) (min_cv : option (bool * nat)) (target : bool),
+    gen_limit (terminations (Some N) max_time min_cv target) = Some N.
+Proof. exact gen_limit_terminations. Qed.
+
+Theorem C07_composite_terminates_at_generation_limit :
+  forall (ts : list term) (l gen : nat) (tm : nat -> bool) (ot : nat -> nat -> bool) (tp : nat),
+    gen_limit ts = Some l -> l <= gen -> fst (is_termination ts gen tm ot tp) = true.
+Proof. intros ts l gen tm ot tp. exact (is_termination_gen_limit ts l gen tm ot tp). Qed.
 
 (* -- "inside any search step": the inner loop of the decomposition search runs the inner search at least once and at most
       repeat_count times, and exactly once when the quota is already reached *)
@@ -144,7 +161,8 @@ Theorem C07_nonvacuous :
   /\ run_process 3 (Some 0) = (0, 3, 1)
   /\ run_process 3 None = (3, 0, 3)
   /\ run_evolve 2 8 [6; 18; 4] (Some 17) = (0, 2, 1, 2, 35)
-  /\ run_evolve 2 8 [6; 18; 4] None = (0, 3, 2, 3, 40).
+  /\ run_evolve 2 8 [6; 18; 4] None = (0, 3, 2, 3, 40)
+  /\ run_evolve_cfg 2 true (Some (true, 40)) true 8 [6; 18; 4] None = (0, 3, 2, 3, 40).
 Proof.
   split; [|split; [|split; [apply homes_init|repeat split; vm_compute; reflexivity]]].
   - intros i s. unfold eres_ok. cbv beta. destruct (h_required s) eqn:E; [exact I|left; reflexivity].
